@@ -27,7 +27,8 @@ RULE = ("every public operation (all iterator tools and aggregations via seeded 
         "a Poke is thrown at EVERY suspension position of every scenario and must be absorbed by the probe with an "
         "unchanged final result; with all-synchronous arguments the operation must finish without suspending at all; "
         "CALL events (sys.monitoring, local to all asyncstdlib code objects) must show no call into asyncio other "
-        "than iscoroutinefunction; a fresh interpreter importing and using the library must have no running/current "
+        "than iscoroutinefunction, the loaded modules' namespaces must hold nothing of asyncio but iscoroutinefunction, "
+        "26 tools over all-synchronous inputs of 5000..150000 items must not suspend either; a fresh interpreter importing and using the library must have no running/current "
         "asyncio loop. one evaluation = one driven run; non-trivial = run with >= 1 suspension (or an all-sync run); "
         "distinct = (scenario or spec, suspensions, poke position)")
 ASSUMPTIONS = ["a loop that checks identity of every token and reply is at least as strict as any real event loop",
@@ -102,9 +103,22 @@ def install_asyncio_call_monitor():
 _MONITORED = {"n": None}
 
 
+LARGE_TOOLS = ["list", "sum", "max", "map", "zip", "reduce", "accumulate", "islice", "chain", "nlargest", "filter",
+               "enumerate", "batched", "takewhile", "pairwise", "zip_longest", "merge", "tee", "groupby", "sorted_key",
+               "any_iter", "cycle", "compress", "starmap", "dict", "set"]
+
+
 def cases(tier, seed, shard, nshards):
     if shard == 0:
         yield {"kind": "fresh-interpreter"}
+        yield {"kind": "namespace"}
+    sizes = [5000, 20000] if tier == "quick" else [5000, 20000, 70000, 150000]
+    k = 0
+    for n in sizes:
+        for name in LARGE_TOOLS:
+            k += 1
+            if k % nshards == shard:
+                yield {"kind": "large-sync", "tool": name, "n": n}
     rng = random.Random(f"C17-{seed}-{shard}")
     n = N_SPECS[tier] // nshards
     names = gen.ITER_TOOL_NAMES + gen.AGG_NAMES
@@ -545,10 +559,114 @@ def run_fresh(stats):
     return {"violations": viols, "evals": 1, "sigs": [("fresh",)]}
 
 
+def run_namespace(stats):
+    """The loaded asyncstdlib modules must not hold anything of asyncio but iscoroutinefunction."""
+    import types
+    viols = []
+    n = 0
+    for name, mod in sorted(sys.modules.items()):
+        if not (name == "asyncstdlib" or name.startswith("asyncstdlib.")) or mod is None:
+            continue
+        for attr, val in vars(mod).items():
+            n += 1
+            modname = val.__name__ if isinstance(val, types.ModuleType) else (getattr(val, "__module__", None) or "")
+            if not isinstance(modname, str):
+                continue
+            if (modname == "asyncio" or modname.startswith("asyncio.") or modname == "_asyncio") and attr != "iscoroutinefunction" \
+                    and getattr(val, "__name__", "") != "iscoroutinefunction":
+                viols.append({"key": "imports-from-asyncio", "msg": f"{name}.{attr} is {modname}.{getattr(val, '__name__', val)!s}: "
+                                                                     f"asyncio is used for more than coroutine-function detection"})
+    stats["module_globals_inspected"] += n
+    return {"violations": viols, "evals": 1, "sigs": [("namespace",)]}
+
+
+def run_large_sync(case, stats):
+    """Large all-synchronous inputs: still no suspension at all (and no call into asyncio)."""
+    _ensure_monitor(stats)
+    n, tool = case["n"], case["tool"]
+    data = range(n)
+
+    async def main():
+        if tool == "list":
+            return len(await A.list(data))
+        if tool == "sum":
+            return await A.sum(data)
+        if tool == "max":
+            return await A.max(data, key=lambda x: -x)
+        if tool == "map":
+            return len(await A.list(A.map(lambda x, y: x + y, data, data)))
+        if tool == "zip":
+            return len(await A.list(A.zip(data, data, strict=True)))
+        if tool == "reduce":
+            return await A.reduce(lambda a, b: b, data)
+        if tool == "accumulate":
+            return await A.max(A.accumulate(data))
+        if tool == "islice":
+            return await A.list(A.islice(data, n - 2, None))
+        if tool == "chain":
+            return len(await A.list(A.chain(data, data)))
+        if tool == "nlargest":
+            return await A.nlargest(data, 3)
+        if tool == "filter":
+            return len(await A.list(A.filter(lambda x: x % 2, data)))
+        if tool == "enumerate":
+            return len(await A.list(A.enumerate(data)))
+        if tool == "batched":
+            return len(await A.list(A.batched(data, 7)))
+        if tool == "takewhile":
+            return len(await A.list(A.takewhile(lambda x: True, data)))
+        if tool == "pairwise":
+            return len(await A.list(A.pairwise(data)))
+        if tool == "zip_longest":
+            return len(await A.list(A.zip_longest(data, range(3))))
+        if tool == "merge":
+            return len(await A.list(A.merge(data, data)))
+        if tool == "tee":
+            a_, b_ = A.tee(data)
+            return len(await A.list(A.zip(a_, b_)))
+        if tool == "groupby":
+            return len([k async for k, _ in A.groupby(data, key=lambda x: x // 3)])
+        if tool == "sorted_key":
+            return (await A.sorted(data, key=lambda x: -x))[0]
+        if tool == "any_iter":
+            return len([x async for x in A.any_iter(data)])
+        if tool == "cycle":
+            return len(await A.list(A.islice(A.cycle(range(3)), n)))
+        if tool == "compress":
+            return len(await A.list(A.compress(data, data)))
+        if tool == "starmap":
+            return len(await A.list(A.starmap(lambda a, b: a, zip(data, data))))
+        if tool == "dict":
+            return len(await A.dict(zip(data, data)))
+        if tool == "set":
+            return len(await A.set(data))
+        raise ValueError(tool)
+
+    CTX.reset()
+    viols = []
+    coro = main()
+    try:
+        surfaced = coro.send(None)
+    except StopIteration:
+        surfaced = StopIteration
+    if surfaced is not StopIteration:
+        coro.close()
+        viols.append({"key": f"{tool}/suspends-with-sync-arguments",
+                      "msg": f"{tool} over a synchronous input of {n} items suspended, yielding {surfaced!r} to the loop"})
+    stats["large_sync_runs"] += 1
+    stats["large_sync_items"] += n
+    _drain_asyncio(viols, f"{tool} n={n}")
+    return {"violations": viols, "evals": 1, "sigs": [("large", tool, n)]}
+
+
 def run_case(case, stats: Counter):
     kind = case["kind"]
     if kind == "fresh-interpreter":
         return run_fresh(stats)
+    if kind == "namespace":
+        return run_namespace(stats)
+    if kind == "large-sync":
+        return run_large_sync(case, stats)
     if kind == "catalogue":
         return run_catalogue(case, stats)
     if kind == "catalogue-sync":
@@ -558,7 +676,7 @@ def run_case(case, stats: Counter):
 
 def finish(stats, tier):
     for need in ("spec_runs", "catalogue_runs", "poke_runs", "pokes_absorbed", "all_sync_runs", "fresh_interpreter_runs",
-                 "suspensions_checked", "asyncstdlib_code_objects_monitored"):
+                 "suspensions_checked", "asyncstdlib_code_objects_monitored", "large_sync_runs", "module_globals_inspected"):
         if not stats.get(need):
             return f"deciding counter {need} is zero"
     return None
